@@ -28,7 +28,7 @@ ASSUMPTIONS = [
 FORMS = [("raw", "num"), ("raw", "array"), ("raw", "bool"), ("raw", "str"),
          ("raw", "tuple2"), ("raw", "dataset"), ("raw", "iarray"),
          ("raw", "mat23"), ("raw", "cube213"), ("ds", "mat23"),
-         ("ds", "cube213"),
+         ("ds", "cube213"), ("ds", "dict"), ("raw", "dict"),
          ("ds", "iarray"), ("ds", "num"), ("ds", "array"),
          ("ds", "bool"), ("ds", "str"), ("ds", "dataset"), ("df", "num"),
          ("df", "str")]
@@ -127,7 +127,7 @@ def check_case(case):
         dskw = dict(var_names=["m", "s"], var_dims={"m": ["r", "c"]})
     elif kind == "cube213":
         dskw = dict(var_names="out", var_dims={"out": ["p", "q", "r"]})
-    elif kind == "dataset":
+    elif kind in ("dataset", "dict"):
         dskw = dict(var_names=None)
     else:
         dskw = dict(var_names="out")
@@ -217,7 +217,9 @@ def check_case(case):
                 except Exception as e:
                     probs.append("no label %r: %r" % (kw, e))
                     continue
-                if kind == "dataset":
+                if kind == "dict":
+                    wv = dict(want)
+                elif kind == "dataset":
                     wv = {v_: want[v_].values for v_ in want.data_vars}
                 elif kind in ("array", "iarray", "cube213"):
                     wv = {"out": np.asarray(want)}
